@@ -1307,7 +1307,9 @@ class KeySignature(object):
     self.key = int(self.xml_key.find('fifths').text)
     mode = self.xml_key.find('mode')
     # Anything not minor will be interpreted as major
-    if mode != 'minor':
+    if mode is not None and mode.text == 'minor':
+      mode = 'minor'
+    else:
       mode = 'major'
     self.mode = mode
     self.time_position = self.state.time_position
